@@ -170,15 +170,30 @@ func vbEntryPoints() []vbEP {
 		return regFollow(bt.ExecuteFrame, ch, true)
 	}})
 	eps = append(eps, vbEP{name: "fNatsTransport.handler", run: func(b []byte) string {
+		// through the exported path: the transport subscribes its handler on <inbox>.*, the broker
+		// model delivers what a peer publishes there
 		conn := fakenats.NewConn()
 		tr := NewFNatsTransport(conn, "subj", "inbox").(*fNatsTransport)
+		if err := tr.Open(); err != nil {
+			return "open: " + err.Error()
+		}
 		ch := make(chan []byte, 1)
 		tr.registry.Register(vbCtx1(), ch)
-		tr.handler(&fakenats.Msg{Subject: "inbox.1", Data: b})
-		tr.handler(&fakenats.Msg{Subject: string(b), Header: fakenats.Header{"Status": {"503"}}})
-		tr.handler(&fakenats.Msg{Subject: "inbox." + string(b), Header: fakenats.Header{"Status": {"503"}}, Data: b})
-		tr.handler(&fakenats.Msg{Subject: "inbox.1", Header: fakenats.Header{"Status": {string(b)}}, Data: b})
-		return regFollow(func(f []byte) error { tr.handler(&fakenats.Msg{Subject: "inbox.1", Data: f}); return nil }, ch, true)
+		conn.Inject("inbox.1", "", nil, b)
+		conn.Inject("inbox."+string(b), "", fakenats.Header{"Status": {"503"}}, nil)
+		conn.Inject("inbox.1", "", fakenats.Header{"Status": {string(b)}}, b)
+		conn.Inject("inbox.zz", "", fakenats.Header{"Status": {"503"}}, b)
+		// let the dispatcher work everything off, then deliver a good reply
+		vsched.WaitUntil(vbIdle, func() bool { return conn.PendingTotal() == 0 })
+		if n, _ := vsched.ChanInfo(ch); n > 0 {
+			vsched.Recv(ch)
+		}
+		conn.Inject("inbox.1", "", nil, vbFramed(goodReply))
+		vsched.WaitUntil(vbIdle, func() bool { return conn.PendingTotal() == 0 })
+		if n, _ := vsched.ChanInfo(ch); n != 1 {
+			return "good reply not delivered after bad messages"
+		}
+		return ""
 	}})
 	eps = append(eps, vbEP{name: "getHeadersFromFrame", run: func(b []byte) string {
 		// unmarshalFrame / addHeadersToFrame are not reachable from any receive path of lib/go
@@ -214,15 +229,26 @@ func vbEntryPoints() []vbEP {
 			return ""
 		}})
 		eps = append(eps, vbEP{name: "fNatsServer.processFrame/" + proto, stream: true, run: func(b []byte) string {
+			// through the exported path: Serve subscribes, requests are published to the subject,
+			// Stop drains; every accepted request has been processed when Serve returns
 			conn := fakenats.NewConn()
 			proc, n := mkProc()
-			srv := NewFNatsServerBuilder(conn, proc, vbProtoFactory(proto), []string{"s"}).Build().(*fNatsServer)
-			srv.processFrame(&frameWrapper{frameBytes: b, reply: "r", ephemeralProperties: map[interface{}]interface{}{}})
-			*n = 0
-			before := len(conn.Log)
-			err := srv.processFrame(&frameWrapper{frameBytes: vbFramed(goodReq), reply: "r", ephemeralProperties: map[interface{}]interface{}{}})
-			if err != nil || *n != 1 || len(conn.Log) != before+1 {
-				return fmt.Sprintf("good request not answered after bad one (err=%v calls=%d)", err, *n)
+			srv := NewFNatsServerBuilder(conn, proc, vbProtoFactory(proto), []string{"s"}).Build()
+			served := false
+			vsched.GoNamed("serve", false, func() { srv.Serve(); served = true })
+			conn.WaitSubsEver(1)
+			conn.PublishRequest("s", "r-bad", b)
+			conn.PublishRequest("s", "r-good", vbFramed(goodReq))
+			srv.Stop()
+			vsched.WaitUntil(vbIdle, func() bool { return served })
+			good := 0
+			for _, m := range conn.Log {
+				if m.Subject == "r-good" {
+					good++
+				}
+			}
+			if *n < 1 || good != 1 {
+				return fmt.Sprintf("good request not answered after bad one (handler calls=%d replies=%d)", *n, good)
 			}
 			return ""
 		}})
@@ -325,6 +351,9 @@ func vbHugeFor(ep string, b []byte) bool {
 	}
 	return len(b) > 0 && b[0] == 0 && big(b, 1)
 }
+
+// vbIdle is a dummy object for waits whose predicate depends on broker / server progress.
+var vbIdle = &vsched.Obj{Name: "idle"}
 
 var vbAlphabet = []byte{0x00, 0x01, 0x04, 0x05, 0x7f, 0x80, 0xfe, 0xff}
 var vbJSONAlphabet = []byte{'[', ']', '"', '1', ',', '{', '}', ':'}
